@@ -1266,9 +1266,18 @@ def bench_cases(rng, seed, n_cases, start, max_rows):
                "step_h": int(rng.choice([1, 1, 3, 24])), "reread": i % 2 == 1}
 
 
-def run_bench_impl(text, reread=False):
+def run_bench_impl(text, reread=False, default_path=False):
     from virocon import read_ec_benchmark_dataset
 
+    if default_path:
+        # no argument: the shipped example dataset A is read (text = that file's content, read independently)
+        try:
+            with warnings.catch_warnings():
+                warnings.simplefilter("ignore")
+                df = read_ec_benchmark_dataset()
+        except Exception as e:  # noqa: BLE001
+            return {"err": type(e).__name__, "msg": str(e)[:200]}
+        return frame_summary(df)
     tmp = tempfile.mkdtemp(prefix="c20-", dir=TMP_ROOT)
     try:
         p = os.path.join(tmp, "bench.txt")
@@ -1297,20 +1306,29 @@ def run_bench_impl(text, reread=False):
                 df = read_ec_benchmark_dataset(p)
         except Exception as e:  # noqa: BLE001
             return {"err": type(e).__name__, "msg": str(e)[:200]}
-        idx = df.index
-        if not str(idx.dtype).startswith("datetime64"):
-            return {"columns": [str(c) for c in df.columns], "index_name": None if idx.name is None else str(idx.name),
-                    "n": len(df), "stamps": np.zeros((len(df), 4), dtype=int) - 1, "sub_hour": False,
-                    "values": np.zeros((len(df), len(df.columns))) * np.nan, "is_datetime": False}
-        return {
-            "columns": [str(c) for c in df.columns], "index_name": None if idx.name is None else str(idx.name),
-            "n": len(df), "stamps": np.c_[idx.year, idx.month, idx.day, idx.hour].astype(int),
-            "sub_hour": bool(np.any(idx.minute != 0) or np.any(idx.second != 0)),
-            "values": np.asarray(df.values, dtype=float).reshape(len(df), len(df.columns)),
-            "is_datetime": str(idx.dtype).startswith("datetime64"),
-        }
+        return frame_summary(df)
     finally:
         shutil.rmtree(tmp, ignore_errors=True)
+
+
+def frame_summary(df):
+    idx = df.index
+    cols = [str(c) for c in df.columns]
+    kinds = [str(getattr(df[c], "dtype", "?")) if list(df.columns).count(c) == 1 else "?" for c in df.columns]
+    try:
+        values = np.asarray(df.values, dtype=float).reshape(len(df), len(cols))
+    except Exception:  # noqa: BLE001  (e.g. text columns that are not numbers)
+        values = np.zeros((len(df), len(cols))) * np.nan
+    if not str(idx.dtype).startswith("datetime64"):
+        return {"columns": cols, "index_name": None if idx.name is None else str(idx.name),
+                "n": len(df), "stamps": np.zeros((len(df), 4), dtype=int) - 1, "sub_hour": False,
+                "values": np.zeros((len(df), len(cols))) * np.nan, "is_datetime": False, "dtypes": kinds}
+    return {
+        "columns": cols, "index_name": None if idx.name is None else str(idx.name),
+        "n": len(df), "stamps": np.c_[idx.year, idx.month, idx.day, idx.hour].astype(int),
+        "sub_hour": bool(np.any(idx.minute != 0) or np.any(idx.second != 0)),
+        "values": values, "is_datetime": True, "dtypes": kinds,
+    }
 
 
 def near(a, b):
@@ -1344,6 +1362,8 @@ def oracle_bench(text, impl):
         return bad
     if impl["columns"] != hdr[1:] or impl["index_name"] != hdr[0]:
         bad.append(("column_names", f"columns {impl['columns']} index {impl['index_name']!r}, header {hdr}"))
+    if any(k != "?" and not k.startswith(("float", "int", "uint")) for k in impl.get("dtypes", [])):
+        bad.append(("values_numeric", f"column dtypes {impl['dtypes']} for a file whose value fields are all decimal numbers"))
     if not impl["is_datetime"] or impl["sub_hour"]:
         bad.append(("time_stamp_index", "index is not a whole-hour datetime index"))
     want = np.array([[t.year, t.month, t.day, t.hour] for t in stamps], dtype=int).reshape(len(rows), 4)
@@ -1361,8 +1381,15 @@ def oracle_bench(text, impl):
 def process_bench(ck, cases):
     lines, recs = [], []
     for case in cases:
+        if case.get("default_path"):
+            p = os.path.join(REPO, "datasets", case["file"])
+            if not (os.path.exists(p) and os.path.getsize(p) > 0):
+                ck.case(case, nontrivial=False)
+                ck.fail({"entry": "read_ec_benchmark_dataset", "predicate": "default_dataset_shipped"}, case,
+                        f"datasets/{case['file']} (the default of read_ec_benchmark_dataset) is missing or empty")
+                continue
         text = materialize_bench(case)
-        impl = run_bench_impl(text, reread=bool(case.get("reread")))
+        impl = run_bench_impl(text, reread=bool(case.get("reread")), default_path=bool(case.get("default_path")))
         bad = oracle_bench(text, impl)
         recs.append((case, text, impl, bad))
         lines.append(["RUN", "readbench", stok(text)])
@@ -1375,6 +1402,8 @@ def process_bench(ck, cases):
             ck.count("bench:order=" + case["order"])
         if case.get("reread"):
             ck.count("bench:path_read_before_with_other_content")
+        if case.get("default_path"):
+            ck.count("bench:default_path(no argument, shipped dataset A)")
         for pred, detail in bad:
             ck.fail({"entry": "read_ec_benchmark_dataset", "predicate": pred}, case, detail)
         div = None
@@ -1521,6 +1550,8 @@ def main(ck):
         p = os.path.join(REPO, "datasets", fn)
         if os.path.exists(p) and os.path.getsize(p) > 0:
             process_bench(ck, [{"kind": "bench", "gen": "repo-file", "file": fn}])
+    # no path argument: the shipped example dataset A (82805 rows) is read
+    process_bench(ck, [{"kind": "bench", "gen": "repo-file", "file": "ec-benchmark_dataset_A.txt", "default_path": True}])
     ck.extra["exhaustive"] = False
 
 
